@@ -40,20 +40,25 @@ type NodeInst struct {
 	N *sx.Node
 }
 
-func (n NodeInst) ID() string             { return n.N.Name }
-func (n NodeInst) TagIs(t int) *smt.Term  { return n.N.TagIs(t) }
-func (n NodeInst) Bool() *smt.Term        { return n.N.B }
-func (n NodeInst) NumReal() *smt.Term     { return n.N.NumReal() }
-func (n NodeInst) NumIsInt() *smt.Term    { return n.N.NumIsInt() }
-func (n NodeInst) Str() *smt.Term         { return n.N.Str }
-func (n NodeInst) Len() *smt.Term         { return n.N.Len }
+func (n NodeInst) ID() string               { return n.N.Name }
+func (n NodeInst) TagIs(t int) *smt.Term    { return n.N.TagIs(t) }
+func (n NodeInst) Bool() *smt.Term          { return n.N.B }
+func (n NodeInst) NumReal() *smt.Term       { return n.N.NumReal() }
+func (n NodeInst) NumIsInt() *smt.Term      { return n.N.NumIsInt() }
+func (n NodeInst) Str() *smt.Term           { return n.N.Str }
+func (n NodeInst) Len() *smt.Term           { return n.N.Len }
 func (n NodeInst) ConstStr() (string, bool) { return "", false }
-func (n NodeInst) MaxLen() int            { return n.N.MaxLen() }
-func (n NodeInst) Elem(i int) Inst        { return NodeInst{n.M, n.N.Elem(i)} }
-func (n NodeInst) Keys() []string         { if !n.N.CanHaveChildren() { return nil }; return n.N.Keys() }
-func (n NodeInst) Has(k int) *smt.Term    { return n.N.Present[k] }
-func (n NodeInst) Val(k int) Inst         { return NodeInst{n.M, n.N.Val(k)} }
-func (n NodeInst) Count() *smt.Term       { return n.N.CountPresent() }
+func (n NodeInst) MaxLen() int              { return n.N.MaxLen() }
+func (n NodeInst) Elem(i int) Inst          { return NodeInst{n.M, n.N.Elem(i)} }
+func (n NodeInst) Keys() []string {
+	if !n.N.CanHaveChildren() {
+		return nil
+	}
+	return n.N.Keys()
+}
+func (n NodeInst) Has(k int) *smt.Term { return n.N.Present[k] }
+func (n NodeInst) Val(k int) Inst      { return NodeInst{n.M, n.N.Val(k)} }
+func (n NodeInst) Count() *smt.Term    { return n.N.CountPresent() }
 
 // QuotIsInt decides integrality of value/d from the node's representation:
 // value = Mant * 2^e (float kinds), an integer (integer kinds) or JN / 10^JK (json.Number).
@@ -170,8 +175,10 @@ func (k ConstInst) num() *big.Rat {
 	}
 	return r
 }
-func (k ConstInst) NumReal() *smt.Term  { return k.M.Ctx.Rat(k.num()) }
-func (k ConstInst) NumIsInt() *smt.Term { return k.M.Ctx.Bool(tagOfConst(k.V) == sx.TagNumber && k.num().IsInt()) }
+func (k ConstInst) NumReal() *smt.Term { return k.M.Ctx.Rat(k.num()) }
+func (k ConstInst) NumIsInt() *smt.Term {
+	return k.M.Ctx.Bool(tagOfConst(k.V) == sx.TagNumber && k.num().IsInt())
+}
 func (k ConstInst) QuotIsInt(d *big.Rat) *smt.Term {
 	q := new(big.Rat).Quo(k.num(), d)
 	return k.M.Ctx.Bool(q.IsInt())
